@@ -240,6 +240,35 @@ def check_export(sh, lr, raw) -> list[dict]:
         want = sorted(str(t) for t in lst)
         if sect[title] != want:
             fails.append({"kind": "summary", "section": title, "summary": sect[title][:20], "tables": want[:20]})
+    # ... and the same tables as the EXPORTED table graph shows (not as the accessors say): a table with incoming and outgoing
+    # edges (and no self-loop) is intermediate; one with only outgoing edges is listed as a source, with only incoming as a target
+    try:
+        cy = lr.to_cytoscape()
+        ids = {e["data"]["id"] for e in cy if "source" not in e["data"]}
+        edges = [(e["data"]["source"], e["data"]["target"]) for e in cy if "source" in e["data"]]
+        ind = {i: 0 for i in ids}
+        outd = {i: 0 for i in ids}
+        loops = set()
+        for a_, b_ in edges:
+            if a_ == b_:
+                loops.add(a_)
+            if a_ in outd:
+                outd[a_] += 1
+            if b_ in ind:
+                ind[b_] += 1
+        is_tab = {str(n) for n in lr._sql_holder.table_lineage_graph.nodes if type(n).__name__ in ("Table", "SqlFluffTable", "SqlParseTable", "Path")}
+        inter = sorted(i for i in ids if ind[i] > 0 and outd[i] > 0 and i not in loops and i in is_tab)
+        if sect["Intermediate Tables:"] != inter:
+            fails.append({"kind": "summary-vs-graph", "section": "Intermediate Tables:", "summary": sect["Intermediate Tables:"][:20],
+                          "tables_with_incoming_and_outgoing_edges_in_the_export": inter[:20]})
+        for i in ids:
+            if i in is_tab and i not in loops:
+                if outd[i] > 0 and ind[i] == 0 and i not in sect["Source Tables:"]:
+                    fails.append({"kind": "summary-vs-graph", "section": "Source Tables:", "missing": i})
+                if ind[i] > 0 and outd[i] == 0 and i not in sect["Target Tables:"]:
+                    fails.append({"kind": "summary-vs-graph", "section": "Target Tables:", "missing": i})
+    except Exception as e:      # noqa
+        fails.append({"kind": "summary-vs-graph", "error": type(e).__name__ + ": " + str(e)[:200]})
     return fails
 
 
